@@ -157,3 +157,31 @@ def _an_old_trace(E, sw, gs, idx, bargs, n):
 
 for _n in (2, 3):
     _tasks(_n)
+
+
+OE = COMB + ".or_else"
+
+
+@task("or_else.unfold", props=["C13", "C23"], functions=[OE + ":or_else", OE + ":or_else.argument_mapping"] + FUNCS)
+def t_or_else(E):
+    """or_else(if_fn, else_fn)(flag, if_args, else_args): the if-branch iff the flag is true, for Python and traced flags"""
+    z3, T = E.z3, E.I.T
+    gi, ge = G(E, "G_if"), G(E, "G_else")
+    oe = E.call(OE + ":or_else", gi, ge)
+    flag = E.flag("flag")
+    ia, ea = E.opaque("if_args", "tuple"), E.opaque("else_args", "tuple")
+    k = key(E)
+    tr = E.method(oe, "simulate", k, (flag, ia, ea))
+    sw_tr = tr.fields["inner"]
+    st, sf = UVal(T.sim(gi.t, k.t, ia.t), "Trace"), UVal(T.sim(ge.t, k.t, ea.t), "Trace")
+    E.cover("or_else.reached")
+    for name, cond, ref, j in (("true_runs_the_if_branch", flag.t, st, 0), ("false_runs_the_else_branch", z3.Not(flag.t), sf, 1)):
+        E.prove(f"C13.or_else.simulate.{name}", E.Implies(cond, E.And(
+            E.eq(E.method(tr, "get_score"), E.method(ref, "get_score")), E.eq(E.method(tr, "get_retval"), E.method(ref, "get_retval")),
+            E.eq(sw_tr.fields["subtraces"][j], ref),
+            E.I.to_u(E.method(tr, "get_choices")) == T.tr_choices(ref.t))))
+    c = chm(E)
+    s, r = E.method(oe, "assess", c, (flag, ia, ea))
+    E.prove("C13.or_else.assess.follows_the_flag", E.eq(s, SReal(z3.If(
+        flag.t, T.assess_score(gi.t, c.t, ia.t), T.assess_score(ge.t, c.t, ea.t)))))
+    E.refutable("or_else.unfold", E.eq(E.method(tr, "get_score"), E.method(st, "get_score")))
